@@ -5,6 +5,7 @@
   decided by the oracle on the real objects and by the container models of C17-C19.)
 -/
 import NiVerif.Model.Wfm
+import NiVerif.Model.WfmReduce
 import NiVerif.Proofs.WfmLemmas
 import NiVerif.Props.C01
 import NiVerif.Props.C09
@@ -125,5 +126,45 @@ theorem bintime_pickle (t : Int) (h : Props.C02.InI128 t) :
 -- non-vacuity: a waveform with slack (start 2, capacity 6) pickles to a compact one with the same contents
 example : (pickle ⟨.analog, 4, 1, [[9], [9], [1], [2], [3], [9]], 2, 3, false, WTiming.empty, 0, [("a", "b")], none⟩).map
     (fun w => (w.view, w.start, w.capacity)) = .ok ([[1], [2], [3]], 0, 3) := by rfl
+
+/-! ### Tier T30: the argument lists of `__reduce__`, regenerated from the three buffer classes (`Gen/WfmReduce`) -/
+
+open Model.WfmReduce in
+/-- **The constructor call that `__reduce__` of NumericWaveform / DigitalWaveform / Spectrum describes is the model's `pickle`**:
+    the visible window (never the whole buffer), its length, the dtype, the column count of a digital waveform, the properties,
+    the timing and the scale mode — and no start index or capacity. -/
+theorem gen_pickle_eq_model (w : W) : pickleVia w = some (pickle w) := by
+  obtain ⟨kind, dtype, ncols, buf, start, count, resizable, timing, scale, props, cache⟩ := w
+  cases kind <;>
+    simp [pickleVia, bindings, clsOf, dataParam, intArg, pickle, Gen.WfmReduce.reduce_args, Gen.WfmReduce.reduce_kwargs,
+      Gen.WfmReduce.ctor_params, List.lookup, W.view, W.capacity]
+
+/-- the pickled form is independent of allocation slack **because `__reduce__` never reads it**: per class, the constructor
+    parameters it passes are all parameters except `start_index`, `capacity` (and the fill value of a new digital buffer) -/
+theorem gen_reduce_passes_all_but_slack :
+    ∀ c ∈ Gen.WfmReduce.ctor_params,
+      ∃ b, Model.WfmReduce.bindings c.1 = some b ∧
+        (c.2.1 ++ c.2.2).filter (fun p => !(b.map Prod.fst).contains p)
+          = (c.2.1 ++ c.2.2).filter (fun p => ["start_index", "capacity", "default_value"].contains p) := by
+  decide +kernel
+
+/-- every class hands over the visible window, and its length as the sample count -/
+theorem gen_reduce_reads_window :
+    ∀ c ∈ ["NumericWaveform", "DigitalWaveform", "Spectrum"],
+      ∃ b, Model.WfmReduce.bindings c = some b ∧ b.lookup "sample_count" = some "count" ∧
+        (b.lookup "raw_data" = some "view" ∨ b.lookup "data" = some "view") ∧ ¬ (b.map Prod.snd).contains "buffer"
+        ∧ b.lookup "copy_extended_properties" = some "False" := by
+  decide +kernel
+
+/-- `_unpickle` of all three classes is the constructor call (after copying an array that sits on the pickle's own buffer) -/
+theorem gen_unpickle_is_ctor_call :
+    Gen.WfmReduce.unpickle_is_ctor_call = ["NumericWaveform", "DigitalWaveform", "Spectrum"] := by decide
+
+/-- consequence, over the generated tables: what `__reduce__` describes rebuilds a waveform with the same observable state -/
+theorem gen_pickle_observe (w w' : W) (hi : Inv w) (h : Model.WfmReduce.pickleVia w = some (.ok w')) :
+    w'.obs = w.obs ∧ w'.start = 0 ∧ w'.capacity = w'.count := by
+  rw [gen_pickle_eq_model] at h
+  have := pickle_observe w w' hi (by simpa using h)
+  exact ⟨this.1, this.2.1, this.2.2.1⟩
 
 end Props.C13
